@@ -397,6 +397,33 @@ def run(ctx):
     c2 = [c for c in own_nodes(f.node) if isinstance(c, ast.Call) and norm(c.func) == "self._storage.create_new_trial"]
     ok = bool(c2) and kwarg(c2[0], "template_trial", 1) is not None and norm(kwarg(c2[0], "template_trial", 1)) == "trial"
     ctx.check(ok, "R09.4", f.short, "add_trial-uses-template", message="add_trial does not create the trial from the given template", how="create_new_trial(study_id, template_trial=trial)")
+    # a trial the library itself produced is accepted by the copy: what FrozenTrial._validate() (run by add_trial) rejects must not be something
+    # the suggest path stores after a mere warning
+    revalidates = any(isinstance(c, ast.Call) and isinstance(c.func, ast.Attribute) and c.func.attr == "_validate" for c in own_nodes(f.node))
+    vf = p.func("optuna.trial._frozen.FrozenTrial._validate")
+
+    def contains_tests(fn, want_raise):
+        out = []
+        from sa.expr import resolve as _res, single_defs as _sd
+        fdefs = _sd(fn.node)
+        for n in own_nodes(fn.node):
+            if isinstance(n, ast.If) and any(isinstance(c, ast.Call) and isinstance(c.func, ast.Attribute) and c.func.attr == "_contains" for c in ast.walk(_res(n.test, fdefs))):
+                has_raise = any(isinstance(x, ast.Raise) for st in n.body for x in ast.walk(st))
+                warns = any(isinstance(x, ast.Call) and (dotted(x.func) or "").endswith("warn") for st in n.body for x in ast.walk(st))
+                if (want_raise and has_raise) or (not want_raise and warns and not has_raise):
+                    out.append(n)
+        return out
+    rejecting = contains_tests(vf, True)
+    warn_only = []
+    for fn in p.iter_funcs(("optuna.trial._trial", "optuna.samplers._grid", "optuna.samplers._partial_fixed")):
+        for n in contains_tests(fn, False):
+            warn_only.append((fn, n))
+    ctx.check(not (revalidates and rejecting and warn_only), "R09.4", p.func("optuna.study.study.copy_study").short, "copy-not-refused-by-revalidation",
+              message="copy_study adds every trial through Study.add_trial, which re-validates it with FrozenTrial._validate(): that raises for a parameter value outside "
+                      "its distribution, while " + ", ".join(sorted({fn.name for fn, _ in warn_only})) + " store such values after a mere warning (out-of-range "
+                      "enqueue_trial / grid values). A finished study the library produced itself then cannot be copied: copy_study raises ValueError and leaves a "
+                      "partial destination study",
+              how="_validate accepts what the suggest path stores, or the copy does not re-validate stored trials")
 
     # ------------------------------------------------------------ R09.6 / R09.7 representation details that differ between backends
     ctx.rule("R09.6", "samplers and pruners never select from a trial's intermediate_values by dict position (first/last item, reversed, "
